@@ -102,6 +102,9 @@ class Kernel:
         self.probes = {}
         self.markers = []  # (task name, channel) of every -2 error marker sent
         self.harness_error = None
+        self.images = None  # procimage.Images: per-process interpreter state
+        self.start_method = "spawn"
+        self.open_pipes = []  # simfs.PipedWriter objects (external compressor processes)
 
     # ------------------------------------------------------------------ helpers
     def probe(self, name, n=1):
@@ -269,6 +272,8 @@ class Kernel:
                 else:
                     t = self.tasks[ev[1]]
                     t.steps += 1
+                    if self.images is not None:
+                        self.images.switch(t.tid)
                     t.go.release()
                     self._sem.acquire()
                 if self.harness_error:
@@ -282,6 +287,7 @@ class Kernel:
 
     def _reap(self):
         """Kill whatever is still alive (daemon children at interpreter exit) and let it unwind."""
+        self._reaping = True
         for _ in range(3):
             alive = [t for t in self.tasks if t.state is not DONE]
             if not alive:
@@ -528,6 +534,13 @@ class SimProcess:
         task.daemon = self.daemon
         self._task = task
         parent.children.append(self)
+        if k.images is not None:
+            k.images.on_start(parent.tid, task.tid)
+        if k.start_method == "fork":
+            # a forked child inherits the write ends of the pipes to external compressor processes
+            for pw in k.open_pipes:
+                if not pw.closed:
+                    pw.holders.append(task)
 
     def join(self, timeout=None):
         k = current_kernel()
@@ -585,7 +598,7 @@ class SimContext:
 
     @staticmethod
     def get_start_method(allow_none=False):
-        return "spawn"
+        return current_kernel().start_method
 
 
 class _ConnectionShim:
